@@ -208,6 +208,9 @@ pub struct PeerPlan {
 pub enum AppOp {
     PubQ0 { len: u32 },
     PubQ1 { len: u32, pid: Option<u16> },
+    /// QoS1 publish through the non-blocking API (`send_at_least_once_no_block`, completion through the
+    /// sink's publish-ack callback); the sender waits for readiness first and for the callback afterwards
+    PubQ1Nb { len: u32, pid: Option<u16> },
     PubQ2 { len: u32, pid: Option<u16> },
     /// release the receipt obtained by the previous PubQ2 of this sender and await PUBCOMP
     Release,
@@ -242,6 +245,11 @@ impl PeerPlan {
 
 impl AppOp {
     pub fn brief(&self) -> String {
+        // (the oracles tell the kinds of operation apart by the first word: a non-blocking QoS1 publish is
+        // a QoS1 publish to them)
+        if let AppOp::PubQ1Nb { len, pid } = self {
+            return format!("PubQ1 {{ len: {len}, pid: {pid:?}, no_block }}");
+        }
         format!("{self:?}")
     }
 }
